@@ -1119,6 +1119,15 @@ static void run_conc(void)
 		RDU();
 		VRT_CHECK(cnt == (unsigned long)pop, "count_nodes says %lu at quiescence, the traversal shows %d nodes", cnt, pop);
 	}
+	if (cfg_flags & CDS_LFHT_AUTO_RESIZE) {
+		int lazy;
+
+		vrt_quiet_begin();
+		lazy = ht->resize_initiated || ht->resize_target != (unsigned long)cfg_init || ht->size != (unsigned long)cfg_init;
+		vrt_quiet_end();
+		if (lazy)
+			vrt_witness(W_LAZY_RESIZED);	/* vacuity guard: a lazy resize was requested in this execution */
+	}
 	if (vrt_param("final_destroy", 0)) {
 		/* empty the table, then destroy it: must succeed, and nothing may touch it afterwards */
 		struct cds_lfht_iter it;
@@ -1130,9 +1139,16 @@ static void run_conc(void)
 		RDU();
 		r = cds_lfht_destroy(ht, NULL);
 		VRT_CHECK(r == 0, "destroy of the emptied table returned %d", r);
-		if (cfg_flags & CDS_LFHT_AUTO_RESIZE)
+		if (cfg_flags & CDS_LFHT_AUTO_RESIZE) {
+			int i;
+
 			while (!vrt_is_freed(ht))
 				vrt_yield();
+			/* let the resize worker run until it is parked again: whatever it still had to do for this table (the tail of a
+			 * resize callback, queued work items) must not touch the released table */
+			for (i = 0; i < 4; i++)
+				vrt_yield();
+		}
 	}
 }
 
